@@ -187,7 +187,10 @@ Sent ==
   /\ Is("Sent")
   /\ LET lk == IsLookupReq(Ev) IN
      Step([s EXCEPT
-       !.sentSearch = IF lk /\ s.phase = "search" THEN @ \cup {Ev.p} ELSE @,
+       \* (once the caller has cancelled, the library publishes with a finished context: its send on the event
+       \* channel races with that context's Done and the event may or may not come through - a request sent then
+       \* is not required to have been announced)
+       !.sentSearch = IF lk /\ s.phase = "search" /\ ~s.cancelled /\ ~(c.timeout > 0 /\ Ev.ts >= c.timeout) THEN @ \cup {Ev.p} ELSE @,
        !.sentReq = IF Ev.kind = "req" /\ Ev.typ = ReqTyp THEN @ \cup {Ev.p} ELSE @,
        !.putSent = IF Ev.typ \in {"PUT_VALUE", "ADD_PROVIDER"} THEN @ \cup {Ev.p} ELSE @,
        !.putTs = IF Ev.typ \in {"PUT_VALUE", "ADD_PROVIDER"} THEN SetSt(@, Ev.p, Ev.ts) ELSE @,
@@ -334,7 +337,7 @@ Return ==
                ELSE {})
          \cup (IF c.op = "findprov" THEN ProvReturnClauses(Ev) ELSE {})
          \cup (IF c.op \in {"putvalue", "provide"} THEN PutReturnClauses(Ev) ELSE {})
-         \cup Flag(s.reqd \subseteq s.sentSearch \cup s.aborted, "C01", "f_request_event_without_rpc")])
+         \cup Flag(s.cancelled \/ c.timeout > 0 \/ s.reqd \subseteq s.sentSearch \cup s.aborted, "C01", "f_request_event_without_rpc")])
 
 EmitClauses ==
   IF c.op = "searchvalue" THEN
